@@ -438,20 +438,198 @@ func partB(c *mc.Ctx) {
 	})
 }
 
+// ---- part C: listing order of the selection-chance table --------------------------------
+//
+// The chance table is a set of (threshold, chance) bands; the rater sorts it itself. For every
+// valid table shape (2, 3 and 5 bands; the single-band shape can never be valid because a band
+// for threshold 0 and one for maxRating are both required) EVERY permutation of the listing
+// order is enumerated. Judged: (a) acceptance by NewRatingsData+NewBlockSigningRater is the
+// same for all listing orders of one table (on the unchanged tree validation looks at the
+// sorted table only: first threshold 0, no duplicates, last == maxRating); (b) GetChance(r)
+// == chance of the band the harness computes from its own sorted copy, for every rating in
+// [min,max] when the range is small and for {min,min+1,mid,max-1,max, thresholds+-1} otherwise.
+// The Compute*/Revert functions do not read the table, so the permuted variants run with a
+// restricted step product and only the chance clauses.
+
+func permutations(n int) [][]int {
+	var out [][]int
+	cur := []int{}
+	used := make([]bool, n)
+	var rec func()
+	rec = func() {
+		if len(cur) == n {
+			out = append(out, append([]int{}, cur...))
+			return
+		}
+		for i := 0; i < n; i++ { // lexicographic: identity (ascending listing) first
+			if !used[i] {
+				used[i] = true
+				cur = append(cur, i)
+				rec()
+				cur = cur[:len(cur)-1]
+				used[i] = false
+			}
+		}
+	}
+	rec()
+	return out
+}
+
+func validShapes(min, max uint32) [][]band {
+	mid := min + (max-min)/2
+	return [][]band{
+		{{max, 10}}, // single band: never valid, listed so that the shape is on record
+		{{0, 5}, {max, 10}},
+		{{0, 5}, {mid, 0}, {max, 16}},
+		{{0, 5}, {min, 0}, {mid, 16}, {max - 1, 20}, {max, 24}},
+	}
+}
+
+func chanceProbes(min, max uint32, bands []band) []uint32 {
+	if max-min <= 200 {
+		out := []uint32{}
+		for r := min; ; r++ {
+			out = append(out, r)
+			if r == max {
+				break
+			}
+		}
+		return out
+	}
+	return ratingInputs(min, max, bands)
+}
+
+func partC(c *mc.Ctx) {
+	type gen struct{ min, start, max uint32 }
+	var gens []gen
+	for _, mn := range []uint32{1, 5} {
+		for _, mx := range []uint32{10, 100, 10000, 10000000, math.MaxUint32} {
+			mid := mn + (mx-mn)/2
+			for _, st := range []uint32{mn, mid, mx - 1} {
+				gens = append(gens, gen{mn, st, mx})
+			}
+		}
+	}
+	// restricted step product (all accepted for some of the ranges above)
+	type stp struct {
+		hours   uint32
+		factor  float32
+		roundMs uint64
+		n, cons uint32
+	}
+	steps := []stp{{1, -1, 3600000, 1, 1}, {1, -4, 6000, 1, 1}, {72, -4, 6000, 400, 63}}
+	type item struct {
+		g     gen
+		s     stp
+		shape int
+	}
+	var items []item
+	for _, g := range gens {
+		for _, s := range steps {
+			for sh := range validShapes(g.min, g.max) {
+				items = append(items, item{g, s, sh})
+			}
+		}
+	}
+	c.Set("partC_table_sets", len(items))
+	mc.Par(len(items), func(ii int) {
+		it := items[ii]
+		base := validShapes(it.g.min, it.g.max)[it.shape]
+		perms := permutations(len(base))
+		probes := chanceProbes(it.g.min, it.g.max, base)
+		var nEval int64
+		type res struct {
+			listed []band
+			err    error
+		}
+		var accepted, rejected []res
+		for pi, perm := range perms {
+			listed := make([]band, len(base))
+			for k, idx := range perm {
+				listed[k] = base[idx]
+			}
+			rc := config.RatingsConfig{}
+			rc.General = config.General{StartRating: it.g.start, MaxRating: it.g.max, MinRating: it.g.min, SignedBlocksThreshold: 0.01}
+			for _, b := range listed {
+				rc.General.SelectionChances = append(rc.General.SelectionChances, &config.SelectionChance{MaxThreshold: b.thr, ChancePercent: b.chance})
+			}
+			rs := config.RatingSteps{HoursToMaxRatingFromStartRating: it.s.hours, ProposerValidatorImportance: 1,
+				ProposerDecreaseFactor: it.s.factor, ValidatorDecreaseFactor: it.s.factor, ConsecutiveMissedBlocksPenalty: 1.1}
+			rc.ShardChain.RatingSteps = rs
+			rc.MetaChain.RatingSteps = rs
+			cfg := desc{"min": it.g.min, "start": it.g.start, "max": it.g.max, "bands_as_listed(thr,chance)": fmt.Sprint(listed),
+				"steps": fmt.Sprintf("%+v", rs), "minNodes": it.s.n, "consensus": it.s.cons, "roundMs": it.s.roundMs}
+			rank := [2]int64{1<<41 + int64(ii), int64(pi) << 20}
+			c.Count("partC_configs_tried", 1)
+			nEval++
+			var bsr *rating.BlockSigningRater
+			var err error
+			if p := mc.Try(func() {
+				var rd *rating.RatingsData
+				rd, err = rating.NewRatingsData(rating.RatingsDataArg{Config: rc, ShardConsensusSize: it.s.cons, MetaConsensusSize: it.s.cons,
+					ShardMinNodes: it.s.n, MetaMinNodes: it.s.n, RoundDurationMiliseconds: it.s.roundMs})
+				if err == nil {
+					bsr, err = rating.NewBlockSigningRater(rd)
+				}
+			}); p != "" {
+				col.add("validation:panic", rank, desc{"config": cfg, "panic": p})
+				continue
+			}
+			if err != nil {
+				rejected = append(rejected, res{listed, err})
+				continue
+			}
+			accepted = append(accepted, res{listed, nil})
+			c.Count("partC_configs_accepted", 1)
+			if pi > 0 {
+				c.Nontrivial(fmt.Sprint("C", ii, "/", pi))
+			}
+			for ri, r := range probes {
+				nEval++
+				got := bsr.GetChance(r)
+				want, ok := refChance(base, r)
+				rk := [2]int64{rank[0], rank[1] + int64(ri)}
+				if !ok {
+					col.add("GetChance:accepted-config-has-no-band-for-a-rating-in-[min,max]", rk, desc{"config": cfg, "rating": r, "chance": got})
+				} else if got != want {
+					col.add("GetChance:not-the-band-of-the-rating", rk, desc{"config": cfg, "rating": r, "chance": got, "want": want,
+						"bands_sorted(thr,chance)": fmt.Sprint(base)})
+				}
+			}
+		}
+		if len(accepted) > 0 && len(rejected) > 0 {
+			col.add("validation:acceptance-depends-on-listing-order-of-selection-chances", [2]int64{1<<41 + int64(ii), 0},
+				desc{"min": it.g.min, "start": it.g.start, "max": it.g.max, "accepted_listing": fmt.Sprint(accepted[0].listed),
+					"rejected_listing": fmt.Sprint(rejected[0].listed), "rejection": rejected[0].err.Error(),
+					"orders_accepted": len(accepted), "orders_rejected": len(rejected)})
+		}
+		if len(accepted) > 0 {
+			c.Outcome(fmt.Sprint("C:accepted-shape", len(base)))
+		} else {
+			c.Outcome(fmt.Sprint("C:rejected-shape", len(base), rejectClass(rejected[0].err)))
+			c.Count("partC_table_sets_rejected_in_every_order: "+rejectClass(rejected[0].err), 1)
+		}
+		c.Eval(nEval)
+	})
+}
+
 func main() {
 	mc.Main("C37", "exploration", func(c *mc.Ctx) {
 		c.Rule = "A: product min{1,5} x max{10,100,1e7,2^32-1} x start{min,mid,max-1,max} x 8 selection-chance tables (valid sorted/unsorted 2,3,5 bands; single band, duplicate threshold, missing/extra top band as rejected shapes) x hours{1,72[,2]} x proposer/validator decrease factor{-1,-4}^2 x penalty{1,1.1,2,1e6} x importance{1,2} x sizes{1/1,400/63} x round{6000,3600000[,100]}ms (the one-hour round makes small rating ranges pass the increase-step>=1 validation) x metachain{same settings, main-net-like}; every config goes through NewRatingsData+NewBlockSigningRater, accepted ones are evaluated on shard{0,1,meta} x rating{min,min+1,mid,max-1,max, thresholds+-1} x streak{0..40[64],100,1000, and 1e6,2^31-1,2^32-1 when penalty>1 / 20000 when penalty==1}. " +
 			"B: raters over NewRatingStepData with steps inc{1,2,1000,MaxInt32} dec{-1,-2,-1000,MinInt32} penalty{1,1.01,1.1,2,1e6,MaxFloat32} x 8 (min,start,max) triples incl. uint32 extremes. " +
-			"Non-trivial: an accepted config and input where the raw new value leaves [min,max] (clamping decides) or where the streak changes the result against streak 0."
+			"C: every listing order (all 1/2/6/120 permutations) of the 1-,2-,3- and 5-band chance tables x min{1,5} x max{10,100,1e4,1e7,2^32-1} x start{min,mid,max-1} x 3 step settings; acceptance must be the same for all orders of a table and GetChance must equal the band of the harness-sorted table on every rating of [min,max] (range <= 200) or {min,min+1,mid,max-1,max,thresholds+-1}. " +
+			"Non-trivial: an accepted config and input where the raw new value leaves [min,max] (clamping decides) or where the streak changes the result against streak 0; C = an accepted table listed in a non-ascending order."
 		c.Bound = "complete product of the stated alphabets"
 		c.Assumptions = []string{
 			"'valid configuration' = accepted by rating.NewRatingsData and rating.NewBlockSigningRater (part A) or by NewBlockSigningRater over steps NewRatingsData can produce: increase >= 1, decrease <= -1, penalty >= 1 (part B)",
 			"current ratings are taken inside [min,max] (the statement's 'keeps the rating between')",
 			"with penalty exactly 1 the result does not depend on the streak and the code loops streak times; streaks above 20000 are enumerated only for penalty > 1",
+			"the selection-chance table is a set of bands: its listing order carries no meaning (the rater sorts it), so acceptance and GetChance must not depend on it; on the unchanged tree validation applies 'lowest threshold 0, no duplicate thresholds, highest threshold == maxRating' to the sorted table; permuted listings (part C) are run with a restricted step product and the chance clauses only, because Compute*/Revert never read the table",
 			"monotonicity of RevertIncreaseValidator in the number of reverts is not part of the statement: counted as information only",
 		}
 		partA(c)
 		partB(c)
+		partC(c)
 		col.flush(c)
 	})
 }
